@@ -11,7 +11,9 @@ RULE = ("noise modes det/auto/declared/he x D 1..4 x budget 60..200 (several ref
         "value equal to a value the row holds or held, noise = logged SD squared); the neighbour set must be sorted by the "
         "length-scaled distance and its distance multiset must equal the k smallest over the whole log, size within "
         "[min(n, n_train_min), max(n_train_max, n_train_min)]; acquisition z must equal mu - sqrt(beta_t)*sd for the prediction "
-        "it used with beta_t recomputed independently. Non-trivial: run had >= 2 hyper-parameter refits (and a non-constant SD "
+        "it used with beta_t recomputed independently; after every local fit the surrogate must hold EXACTLY the selected neighbour set "
+        "(same rows, same order); 30% of the runs additionally inject 1-3 consecutive LinAlgErrors into GP.fit so that the retry/pruning "
+        "paths of the robust refit run while the seams are watched. Non-trivial: run had >= 2 hyper-parameter refits (and a non-constant SD "
         "function in he mode); distinct = distinct (mode, D, geometry, landscape, #refits bucket)")
 RUN_KW = {"quick": dict(timeout_case=200, wall_cap=800), "thorough": dict(timeout_case=500, wall_cap=3300)}
 ASSUMPTIONS = ["rows appended right after a specified-noise merge may carry the SD the target reported for that evaluation (counted, not judged)"]
@@ -37,12 +39,19 @@ def cases(tier, seed):
                              x0mode=str(rng.choice(["in", "none", "onlb"], p=[0.6, 0.2, 0.2])),
                              land=str(rng.choice(["quad", "sphere", "l1", "rosen", "stair", "bowl4"])), where=str(rng.choice(["in", "onb", "out"], p=[0.5, 0.3, 0.2])),
                              mode=mode, options=opts, max_fun_evals=int(rng.choice([60, 100, 150, 200])))
-        out.append({"spec": spec})
+        case = {"spec": spec}
+        if rng.random() < 0.3:
+            # stimulate the retry paths of the robust refit: 2-3 consecutive LinAlgErrors at some fit
+            k = int(rng.integers(1, 12))
+            case["gp_fault"] = list(range(k, k + int(rng.choice([1, 2, 3]))))
+        out.append(case)
     return out
 
 
 def run_case(case):
-    return C.run_monitored(case, {"C15"})
+    rec = C.run_monitored(case, {"C15"}, gp_fault=case.get("gp_fault"))
+    rec["gp_fault"] = case.get("gp_fault")
+    return rec
 
 
 def summarize(records, tier, seed):
@@ -53,7 +62,9 @@ def summarize(records, tier, seed):
             s = r["case"]["spec"]
             nt.add((s["noise"]["mode"], s["D"], s["geom"], s["target"]["kind"], min(c.get("C15.local_refits", 0) // 3, 4)))
     cnt = C.count_sum(records, "C15.")
-    extra = {"events_checked": cnt, "status": C.status_hist(records), "aborts_by_other_defects": C.other_property_aborts(records, "C15")}
+    extra = {"events_checked": cnt, "status": C.status_hist(records), "aborts_by_other_defects": C.other_property_aborts(records, "C15"),
+             "runs_with_injected_fit_failures": sum(1 for r in records if r.get("gp_fault")),
+             "injected_fit_failures_delivered": C.count_sum(records, "C16.faults_delivered")}
     inconc = None
     for need in ("C15.rows_checked", "C15.neighbor_calls", "C15.acq_rows_checked", "C15.noise_rows_checked", "C15.add_exits"):
         if cnt.get(need, 0) == 0:
